@@ -45,8 +45,30 @@ let run_loads (args : Sexp.t list) : Sexp.t =
     L [A "b"; A (if loads_ok ps (z_of_string n) then "1" else "0")]
   | _ -> failwith "loadsok"
 
+(* a path string is split at every '/' (and joined back): the model works on the elements *)
+let path_of_string (s : string) : path =
+  { p_abs = String.length s > 0 && s.[0] = '/'; p_segs = List.map cstr (String.split_on_char '/' s) }
+let string_of_path (p : path) : string =
+  let segs = List.map ocaml_string_of p.p_segs in
+  if p.p_abs then "/" ^ String.concat "/" segs else if segs = [] then "." else String.concat "/" segs
+let str_of_atom a = string_of_bstr (bstr_of_atom a)
+
+(* (finame <cwd hex> (<workdir hex> <name hex>)...) -> (finame <Name() hex>...) *)
+let run_finame (args : Sexp.t list) : Sexp.t =
+  match args with
+  | A cwd :: ps ->
+    let cwd = path_of_string (str_of_atom cwd) in
+    L (A "finame" :: List.map (function
+        | L [A wd; A n] ->
+          let n = str_of_atom n in
+          if n = "" then A "none"
+          else A (atom_of_bstr (bstr_of_string (string_of_path (fi_name cwd (path_of_string (str_of_atom wd)) (path_of_string n)))))
+        | _ -> failwith "finame pair") ps)
+  | _ -> failwith "finame"
+
 let run (kind : string) (args : Sexp.t list) : Sexp.t =
   if kind = "loadsok" then run_loads args else
+  if kind = "finame" then run_finame args else
   let ops = List.map op_of_sexp args in
   let (_, rs) = run_ops new_symbol_table ops in
   L (List.map sexp_of_res rs)
